@@ -157,6 +157,15 @@ Proof. exact machine_sem. Qed.
 Theorem C08_machine_sem_dec : forall s q, cleanb s [] q = true -> run_machine s q = Some (sem s [] q).
 Proof. exact machine_sem_dec. Qed.
 
+(* a syntactic class on which the modelled levels are those of [sem]: constraint lists without
+   UNION and without the (type, form, role) combinations of the classes below *)
+Theorem C08_plain_level : forall s e rt cs lim, plain_l rt cs = true ->
+  level_impl s e rt cs lim = level s e rt cs lim.
+Proof. exact plain_level. Qed.
+
+Theorem C08_machine_sem_plain : forall s q, guard s [] q = true -> run_machine s q = Some (sem s [] q).
+Proof. exact machine_sem_plain. Qed.
+
 Definition Known_C08_delete_nosub (nosub : bool) : bool := nosub.
 Definition Known_C08_position (q : query) : bool := negb (all_levels_ok q).
 Definition Known_C08_indirect (s : store) (q : query) : bool := indirect_q q && has_higher_order s.
@@ -248,6 +257,7 @@ Proof. vm_compute. reflexivity. Qed.
 Example C08_machine_nonvacuous :
   let q := Q 0 TAnn [CSet (RId 0) false] None false
              (Some (Q 1 TData [CAnn (RVar 0) false] None true None)) in
-  cleanb W [] q = true
+  cleanb W [] q = true /\ guard W [] (Q 0 TAnn [CSet (RId 0) false; CRes (RId 0) true] None false None) = false
+  /\ guard W [] (Q 0 TRes [CId 0] None false (Some (Q 1 TAnn [CRes (RVar 0) false; CKey 0 0 false] (Some (0, 1)%Z) true None))) = true
   /\ run_machine W q = Some [[IAnn 1; IData 0 0]; [IAnn 2; IData 0 1]; [IAnn 2; IData 0 2]].
-Proof. vm_compute. split; reflexivity. Qed.
+Proof. vm_compute. repeat split; reflexivity. Qed.
